@@ -383,6 +383,10 @@ func runC16(c *Ctx) {
 		}
 	})
 	c.Min("C16-R4", 3)
+
+	// a brute-force scan and an indexed query both read the stored receipts and logs: their storage codecs must not
+	// lose a field (decided by C03's codec symmetry rule, shared here)
+	c.Borrow("C03", runC03, map[string]string{"C03-R6": "C16-R5"})
 }
 
 func regexpQuote(s string) string {
